@@ -29,7 +29,7 @@ HEAD = subprocess.run(['git', '-C', '/repo', 'rev-parse', a.base], capture_outpu
 
 def sh(cmd, cwd=None, env=None, timeout=None):
     try:
-        p = subprocess.run(cmd, cwd=cwd, env=env, capture_output=True, text=True, timeout=timeout)
+        p = subprocess.run(cmd, cwd=cwd, env=env, capture_output=True, text=True, errors='replace', timeout=timeout)
         return p.returncode, p.stdout, p.stderr
     except subprocess.TimeoutExpired as e:
         return 'timeout', (e.stdout or b'').decode(errors='replace') if isinstance(e.stdout, bytes) else (e.stdout or ''), ''
